@@ -551,6 +551,9 @@ impl Arena {
   ///
   /// Truncating replaces the backing memory, so it fails if the ARENA is shared,
   /// i.e. there are clones of it or owned buffers or values allocated from it.
+  /// It also fails, without any effect, if the new capacity is larger than `u32::MAX`,
+  /// if the ARENA is read-only, or if the ARENA is a copy-on-write memory map
+  /// (its private pages cannot be carried over to a new memory map).
   #[cfg(all(feature = "memmap", not(target_family = "wasm")))]
   pub fn truncate(&mut self, mut size: usize) -> std::io::Result<()> {
     if self.ro {
